@@ -12,9 +12,12 @@ import (
 	"encoding/json"
 	"flag"
 	"fmt"
+	"math/big"
 	"math/rand"
 	"os"
 
+	"github.com/LemoFoundationLtd/lemochain-core/chain/params"
+	"github.com/LemoFoundationLtd/lemochain-core/chain/types"
 	"github.com/LemoFoundationLtd/lemochain-core/common"
 	"github.com/LemoFoundationLtd/lemochain-core/common/crypto"
 	rm "github.com/LemoFoundationLtd/lemochain-core/common/merkle"
@@ -24,6 +27,59 @@ import (
 )
 
 func leafOf(atom string) common.Hash { return crypto.Keccak256Hash([]byte("c17-leaf-" + atom)) }
+
+// The three places the chain derives a Merkle root: a block's transactions, its change logs, a term's deputies.
+// Every abstract leaf is instantiated once per family as a real object; its Hash() is the leaf.
+var (
+	signKey, _ = crypto.HexToECDSA("432a86ab8765d82415a803e29864dcfc1ed93dac949abf6f95a583179f27e4bb")
+	txOf       = map[string]*types.Transaction{}
+	logOf      = map[string]*types.ChangeLog{}
+	depOf      = map[string]*types.DeputyNode{}
+)
+
+func atomAddr(atom string) common.Address {
+	return common.BytesToAddress(crypto.Keccak256([]byte("c17-addr-" + atom))[:20])
+}
+
+func instantiate(atom string) {
+	if _, ok := txOf[atom]; ok {
+		return
+	}
+	n := int64(len(txOf) + 1)
+	from := crypto.PubkeyToAddress(signKey.PublicKey)
+	tx := types.NewTransaction(from, atomAddr(atom), big.NewInt(n), 1000000, common.Big1, []byte(atom), params.OrdinaryTx, 200, 1000, "", "")
+	tx, err := types.DefaultSigner{}.SignTx(tx, signKey)
+	if err != nil {
+		engine.Failf("sign: %v", err)
+	}
+	txOf[atom] = tx
+	logOf[atom] = &types.ChangeLog{LogType: types.ChangeLogType(1), Address: atomAddr(atom), Version: uint32(n), NewVal: *big.NewInt(n)}
+	id := crypto.Keccak256([]byte("c17-node-" + atom))
+	depOf[atom] = &types.DeputyNode{MinerAddress: atomAddr(atom), NodeID: append(append([]byte{}, id...), id...), Rank: uint32(n), Votes: big.NewInt(1000 + n)}
+}
+
+type familyResult struct {
+	name   string
+	leaves []common.Hash
+	root   common.Hash
+}
+
+// families evaluates the REAL MerkleRootSha of the three list types on the objects of the given atoms.
+func families(atoms []string) []familyResult {
+	var txs types.Transactions
+	var logs types.ChangeLogSlice
+	var deps types.DeputyNodes
+	res := []familyResult{{name: "txs"}, {name: "changelogs"}, {name: "deputies"}}
+	for _, a := range atoms {
+		instantiate(a)
+		txs, logs, deps = append(txs, txOf[a]), append(logs, logOf[a]), append(deps, depOf[a])
+		res[0].leaves = append(res[0].leaves, txOf[a].Hash())
+		res[1].leaves = append(res[1].leaves, logOf[a].Hash())
+		res[2].leaves = append(res[2].leaves, depOf[a].Hash())
+	}
+	res[0].root, res[1].root, res[2].root = txs.MerkleRootSha(), logs.MerkleRootSha(), deps.MerkleRootSha()
+	return res
+}
 
 type interner struct {
 	id  map[common.Hash]int
@@ -101,14 +157,41 @@ func evaluate(atoms []string, universe []string) engine.Fields {
 		absent = append(absent, []interface{}{in.of(leafOf(a)), err != nil})
 	}
 	fl["absent"] = absent
-	// oracle: the real Keccak256 on every ordered pair of interned values
+	groups := [][]int{}
+	all := []int{}
+	for i := range in.val {
+		all = append(all, i)
+	}
+	groups = append(groups, all)
+	// the chain's own list types: leaves are the objects' hashes, the root is their MerkleRootSha()
+	fams := []interface{}{}
+	for _, f := range families(atoms) {
+		first := len(in.val)
+		ids := make([]int, len(f.leaves))
+		for i, l := range f.leaves {
+			ids[i] = in.of(l)
+		}
+		for _, n := range rm.New(append([]common.Hash{}, f.leaves...)).HashNodes() {
+			in.of(n)
+		}
+		rootID := in.of(f.root)
+		var g []int
+		for i := first; i < len(in.val); i++ {
+			g = append(g, i)
+		}
+		groups = append(groups, g)
+		fams = append(fams, map[string]interface{}{"name": f.name, "leaves": ids, "root": rootID})
+	}
+	fl["fam"] = fams
+	// oracle: the real Keccak256 on every ordered pair of interned values (within the raw table and within each family)
 	pairs := [][]int{}
-	n := len(in.val)
-	for i := 0; i < n; i++ {
-		for j := 0; j < n; j++ {
-			h := crypto.Keccak256Hash(append(append([]byte{}, in.val[i][:]...), in.val[j][:]...))
-			if k, ok := in.id[h]; ok {
-				pairs = append(pairs, []int{i + 1, j + 1, k})
+	for _, g := range groups {
+		for _, i := range g {
+			for _, j := range g {
+				h := crypto.Keccak256Hash(append(append([]byte{}, in.val[i][:]...), in.val[j][:]...))
+				if k, ok := in.id[h]; ok {
+					pairs = append(pairs, []int{i + 1, j + 1, k})
+				}
 			}
 		}
 	}
